@@ -182,6 +182,7 @@ func runCheck(p *property, tier string, seed int) int {
 		caseCount   int
 		loadTime    float64
 		nativeSkip  int
+		foreign     int
 	)
 	for gi, g := range groups {
 		caseCount += len(g.Cases)
@@ -256,6 +257,12 @@ func runCheck(p *property, tier string, seed int) int {
 				case 0:
 					discharged++
 				case 1:
+					if !strings.HasPrefix(a.Sig, p.ID+"|") && !strings.HasPrefix(a.Sig, "SELFTEST|") {
+						// an assertion of another property's harness reused by this check
+						// (e.g. C07 runs the C06 programs for deadlocks only): not this check's claim
+						foreign++
+						continue
+					}
 					v := &violation{Sig: a.Sig, Case: c, Values: a.Model, Inputs: a.Inputs, Kind: "assert", Threads: r.Threads, NoNativeStub: r.NoNative}
 					viols = append(viols, v)
 					if r.Threads <= 1 && !p.NoNative && !r.NoNative && c != nil {
